@@ -42,6 +42,9 @@ type c08Transcript struct {
 	expect        map[string]any    // run -> output data
 	afterBadHello bool              // still issue the Execute calls when ReadSchema failed
 	closeAfter    bool              // the server ends its output after the last message (it exits)
+	// lateRecv: the receivers of emitted signals start receiving only some time after the client has read the first
+	// signal message (a consumer is not obliged to be parked in its receive when the signal arrives)
+	lateRecv bool
 }
 
 func rtMsg(id uint32, run string, data any) []byte {
@@ -141,6 +144,26 @@ func c08Transcripts() []c08Transcript {
 		t.msgs = append(t.msgs, errMsg("a", "step failed (late duplicate)", true, false, "b"))
 		addDone(t, b)
 	}
+	{ // an emitted signal and the run's result back to back, the consumer of the signals not yet receiving
+		t := mk("v3-signal-then-done-late-receiver", 3)
+		a := ex("a", "sig", nil)
+		a.Emitted = true
+		t.lateRecv = true
+		t.groups = [][]rig.ExecSpec{{a}}
+		t.msgs = append(t.msgs, sigMsg("a", 1))
+		addDone(t, a)
+	}
+	{ // two runs emitting signals, late consumers, results and signals interleaved
+		t := mk("v3-two-runs-signals-late-receivers", 3)
+		a, b := ex("a", "sig", nil), ex("b", "sig", nil)
+		a.Emitted, b.Emitted = true, true
+		t.lateRecv = true
+		t.groups = [][]rig.ExecSpec{{a, b}}
+		t.msgs = append(t.msgs, sigMsg("a", 1), sigMsg("b", 1), sigMsg("a", 2))
+		addDone(t, a)
+		t.msgs = append(t.msgs, sigMsg("b", 2))
+		addDone(t, b)
+	}
 	{ // legacy v1: two serial runs, unwrapped messages
 		t := mk("v1-two-serial", 1)
 		a, b := ex("a", "echo", nil), ex("b", "echo2", map[string]any{"payload": 1.5})
@@ -192,6 +215,9 @@ type c08Fault struct {
 	at         int64
 	failWrites int // -1: never
 	garbage    []byte
+	// lateFail: write #failWrites does reach the server, takes until the client has read the first emitted signal,
+	// and then reports an error
+	lateFail bool
 }
 
 type c08Outcome struct {
@@ -201,10 +227,18 @@ type c08Outcome struct {
 	execs         []*rig.ExecOutcome
 	closeReturned bool
 	closeErr      error
+	hits          map[int]int // overlay builds: yield points reached (c08Sched armed)
+	pauses        int
+	released      []rig.PauseAt
 	panicMsg      string
 	panicStack    string
 	baseGID       int64
 }
+
+// c08Sched, if not nil, is the pause schedule armed for the next replay (overlay builds only: C06 replays fault-free
+// transcripts of a scripted peer under single pauses).
+var c08Sched []rig.PauseAt
+var c08SchedLifo bool
 
 // c08Replay runs the real client against a fake server that replays the
 // transcript; the server->client stream is cut / corrupted at fault.at.
@@ -215,10 +249,28 @@ func c08Replay(t *c08Transcript, f c08Fault, s2cMode rig.Mode, chunkSeed uint64)
 	if f.kind != rig.FaultNone {
 		s2c.CutAt(f.at, f.kind, f.garbage)
 	}
-	if f.failWrites >= 0 {
+	sigEnd := int64(-1)
+	for _, m := range t.msgs {
+		if strings.HasPrefix(m.name, "signal(") {
+			sigEnd = m.end
+			break
+		}
+	}
+	var writeFailed atomic.Bool
+	if f.failWrites >= 0 && f.lateFail {
+		c2s.FailWriteLate(f.failWrites, func() {
+			s2c.WaitDelivered(sigEnd)
+			time.Sleep(time.Millisecond)
+			writeFailed.Store(true)
+		})
+	} else if f.failWrites >= 0 {
 		c2s.FailWritesFrom(f.failWrites)
 	}
 	res.baseGID = rig.TakeSnapshot().MaxGID()
+	armed := c08Sched != nil
+	if armed {
+		rig.Y.Arm(c08Sched, c08SchedLifo)
+	}
 	var done atomic.Int32
 	var mu sync.Mutex
 	setPanic := func(who string, p any) {
@@ -298,6 +350,13 @@ func c08Replay(t *c08Transcript, f c08Fault, s2cMode rig.Mode, chunkSeed uint64)
 							dr.Add(1)
 							go func() {
 								defer dr.Done()
+								if t.lateRecv && sigEnd >= 0 {
+									s2c.WaitDelivered(sigEnd)
+									for f.lateFail && !writeFailed.Load() {
+										time.Sleep(100 * time.Microsecond)
+									}
+									time.Sleep(2 * time.Millisecond)
+								}
 								for s := range from {
 									o.Emitted = append(o.Emitted, s)
 								}
@@ -318,6 +377,11 @@ func c08Replay(t *c08Transcript, f c08Fault, s2cMode rig.Mode, chunkSeed uint64)
 		res.closeReturned = true
 	}()
 	res.monitor = rig.Monitor(func() bool { return done.Load() == 1 }, nil, 20*time.Second)
+	if armed {
+		res.hits, _, _, res.pauses = rig.Y.Stats()
+		res.released = res.monitor.Released
+		rig.Y.Disarm()
+	}
 	mu.Lock()
 	res.execs = append([]*rig.ExecOutcome{}, res.execs...)
 	mu.Unlock()
@@ -515,6 +579,13 @@ func runC08(c *wk.Ctx) {
 				}
 			}
 		}
+		// the write of the work-start message reaches the server, takes its time and then reports an error - while
+		// the read loop is handing the run's first emitted signal to a consumer that is late
+		if t.name == "v3-signal-then-done-late-receiver" {
+			for rep := 0; rep < 6; rep++ {
+				jobs = append(jobs, job{ti, c08Fault{kind: rig.FaultNone, failWrites: 1, lateFail: true}, "late-write-fault"})
+			}
+		}
 		// write side failing from write #j (with and without a simultaneous read fault at a boundary)
 		for j := 0; j <= 6; j++ {
 			jobs = append(jobs, job{ti, c08Fault{kind: rig.FaultNone, failWrites: j}, "write-fault"})
@@ -536,7 +607,7 @@ func runC08(c *wk.Ctx) {
 			mode = rig.ModeChunked
 		}
 		seed := r.U64()
-		wit := map[string]any{"transcript": t.name, "stream_bytes": t.total(), "fault": j.f.kind.String(), "cut_at": j.f.at, "client_writes_fail_from": j.f.failWrites, "transport": mode.String(), "chunk_seed": seed}
+		wit := map[string]any{"transcript": t.name, "stream_bytes": t.total(), "fault": j.f.kind.String(), "cut_at": j.f.at, "client_writes_fail_from": j.f.failWrites, "failing_write_delivers_first": j.f.lateFail, "transport": mode.String(), "chunk_seed": seed}
 		var names []string
 		for _, m := range t.msgs {
 			names = append(names, fmt.Sprintf("%s[%d..%d)", m.name, m.start, m.end))
@@ -547,7 +618,7 @@ func runC08(c *wk.Ctx) {
 		c.Count("replays")
 		c.Count("transcript:" + t.name)
 		c.Count("fault:" + j.label + ":" + j.f.kind.String())
-		c.Eval(wk.Hash64(t.name, fmt.Sprint(j.f.kind, j.f.at, j.f.failWrites), mode.String()), (j.f.kind != rig.FaultNone && j.f.at > 0 && j.f.at < t.total()) || j.f.failWrites >= 0)
+		c.Eval(wk.Hash64(t.name, fmt.Sprint(j.f.kind, j.f.at, j.f.failWrites, j.f.lateFail), mode.String()), (j.f.kind != rig.FaultNone && j.f.at > 0 && j.f.at < t.total()) || j.f.failWrites >= 0)
 		c08Judge(c, t, j.f, res, wit)
 		if idx%997 == 0 {
 			c.Sample("replay", wit)
